@@ -38,8 +38,9 @@ CLAIM = ('Proved in Coq for the model, END TO END for Numbers naming with KeepLo
          "reader's view (C07_timestampsdirect_cleanup, _no_panic, _vs_never, _oracles; C07_timestamps_cleanup, _no_panic, "
          "_vs_never, _oracles). 'Clock not going backwards' is necessary: after the clock is set back, the TimestampsDirect file "
          'being written lists behind an older file and KeepLogFiles(1) removes it (TsdCleanup.clock_backwards_current_removed, '
-         'evaluated in Coq; the property does not quantify over clock jumps). NumbersDirect with the background thread and with '
-         'foreign files: C07_numbersdirect_cleanup_bg and C14. ')
+         'evaluated in Coq) - confirmed on the code, recorded as the known finding clock-set-back-direct-timestamps (DESIGN.md '
+         'section 9) and printed by this check on every run from a corpus case. NumbersDirect with the background thread and '
+         'with foreign files: C07_numbersdirect_cleanup_bg and C14. ')
 THEOREMS = ["C07_numbers_cleanup", "C07_numbers_cleanup_vs_never", "C07_listing_sorted", "C07_listing_restart_order", "C07_listing_plain_last", "C07_compress_lossless", "C07_cleanup_keeps_newest", "C07_tail_sound", "C07_limits_sound", "C07_numbers_cleanup_bg", "C07_numbersdirect_cleanup", "C07_numbersdirect_cleanup_vs_never", "C07_numbersdirect_cleanup_no_panic", "C07_listing_number_order", "C07_listing_key_order", "C07_listing_ts", "C07_timestampsdirect_cleanup", "C07_timestampsdirect_cleanup_no_panic", "C07_timestamps_cleanup", "C07_timestamps_cleanup_no_panic", "C07_timestampsdirect_oracles", "C07_timestamps_oracles", "C07_timestampsdirect_cleanup_vs_never", "C07_timestamps_cleanup_vs_never", "C07_bg_worlds_numbersdirect_cleanup", "C07_numbersdirect_cleanup_bg", "C07_numbersdirect_cleanup_stream_bg", "C07_numbersdirect_cleanup_no_panic_bg"]
 TRUSTED = ["modelled, not verified: flate2 (validated by decompressing every archive), read_dir, the keyed sort of the listing (modelled as insertion sort by the same key), "
            "the background cleanup thread is modelled as a queue drained at shutdown (interleavings with rotations: not explored here)"]
@@ -68,6 +69,12 @@ def corpus():
                 pre = ["XC:%s:0:%s" % (g.hx(c.name(b"r%05d" % i)), g.hx(b"old%d\n" % i)) for i in (99998, 99999)]
                 out.append("flw %d 0 ; %s SN B:%s W:%s W:%s F SN W:%s F SN W:%s S SN" % (
                     g.T0, " ".join(pre), c.token(), g.hx(b"A0aaaa\n"), g.hx(b"B1\n"), g.hx(b"C2cccc\n"), g.hx(b"D3\n")))
+    # KNOWN FINDING (known_findings.jsonl, class clock-set-back-direct-timestamps): TimestampsDirect naming + a cleanup strategy + the
+    # clock set back (what the end of daylight saving time does to local time): the file opened by the next rotation carries an
+    # EARLIER time stamp than the files before it, sorts behind them, and the cleanup removes or compresses the file being written
+    c = g.Cfg(base=b"a", crit="s5", naming="tsd", cleanup="l1")
+    out.append("flw %d 0 ; B:%s W:%s K:5 W:%s F SN K:-3600 W:%s F SN W:%s F SN W:%s S SN" % (
+        g.T0, c.token(), g.hx(b"A0aaaa\n"), g.hx(b"B1bbbb\n"), g.hx(b"C2cccc\n"), g.hx(b"D3\n"), g.hx(b"E4eeee\n")))
     return out
 
 
@@ -86,7 +93,13 @@ def search(rng, tier, disagreeing):
 
 
 def classify(body, impl, verdict):
-    """no recorded finding is left for this property: every failure is reported"""
+    """one recorded finding: the clock set back under a direct time-stamp naming with a cleanup strategy"""
+    toks = body.split(" ; ", 1)[1].split(" ")
+    cfgs = [t[2:].split(",") for t in toks if t.startswith("B:")]
+    back = any(t.startswith("K:-") for t in toks)
+    direct_ts = all(c[7] == "tsd" or (c[7].startswith("cu.") and c[7].split(".")[1] == "~") for c in cfgs)
+    if back and cfgs and direct_ts and all(c[8] != "n" for c in cfgs):
+        return "clock-set-back-direct-timestamps"
     return None
 
 
